@@ -3,7 +3,7 @@
    (full object tree: class skeleton WITH the stored scalars/vectors, domain, range, is_linear)
    or the error class it raised, and values at some points (out-of-place and in-place). *)
 From Coq Require Import ZArith QArith List Bool.
-From Verif Require Import Base.Num Base.Vec Base.Check C04.Model C04.ModelIP C04.ModelMem C04.Cplx Gen.OpTables C04.Tables.
+From Verif Require Import Base.Num Base.Vec Base.Check C04.Model C04.ModelIP C04.ModelMem C04.Cplx Gen.OpTables C04.Tables C04.Dispatch Gen.OpDispatch C04.DispatchModel.
 Import ListNotations.
 
 Section Corr.
@@ -41,7 +41,8 @@ Inductive impl_build :=
 | BOk (k : skel) (dom ran : sp) (lin func : bool) | BTypeErr | BZeroDiv | BOther.
 
 (* p_alias: does the out-of-place result share memory with x (np.shares_memory)? *)
-Record point := { p_x : vec; p_out : vec; p_ip : option vec; p_alias : bool }.
+(* p_xx: contents of x after  o(x, out=x)  (None when domain <> range or the call raised) *)
+Record point := { p_x : vec; p_out : vec; p_ip : option vec; p_alias : bool; p_xx : option vec }.
 (* c_kon: memory contract (result fresh?, in-place alias-safe?) of the leaf with each l_id *)
 Record case := { c_vt : variant; c_kon : list (bool * bool); c_expr : sexpr T; c_build : impl_build;
                  c_points : list point }.
@@ -66,10 +67,24 @@ Definition mem_ok (kon : nat -> lcontract) (o : oexpr T) (r : sp) (p : point) : 
      | None, _ => true
      end
   && match unp (sget st4 0) with Some x' => vcl (p_x p) x' && vcl x' (p_x p) | None => false end
-  && match r with SV _ => Bool.eqb (Nat.eqb r1 0) (p_alias p) | SF => true end.
+  && match r with SV _ => Bool.eqb (Nat.eqb r1 0) (p_alias p) | SF => true end
+  (* out aliased to x: whenever the contract computed from the leaves' flags ([oalias]) says the
+     object tolerates it, the real object must produce the value (ProofsMem.ip_sound with x = out) *)
+  && match p_xx p with
+     | Some y => if oalias kon o
+                 then match unp (sget (ip kon o st0 0 0) 0) with Some y' => vcl y y' | None => false end
+                 else true
+     | None => true
+     end.
 
 Definition check (k : case) : bool :=
   let s := c_expr k in let vt := c_vt k in
+  (* the interpretation of the regenerated overload trees builds the same object *)
+  match build_tab vt s, c_build k with
+  | Ok o', BOk sk _ _ _ _ => skel_ok o' sk
+  | Err TypeErr, BTypeErr | Err ZeroDivErr, BZeroDiv => true
+  | _, _ => false
+  end &&
   match build vt s, c_build k with
   | Ok o, BOk sk d r lin fn =>
       skel_ok o sk && sp_eqb (odom o) d && sp_eqb (oran o) r
@@ -113,7 +128,10 @@ Arguments case T : clear implicits.
 Definition tol : Q := 1 # 1000000000000.
 Definition qcl (impl model : Q) : bool := Qclose tol tol impl model.
 (* the variant MEASURED on the running code must be the one READ from the regenerated table *)
-Definition vt_consistent (vt : variant) : bool := Bool.eqb (v_frvec_lin vt) frvec_lin_of_table.
+Definition vt_consistent (vt : variant) : bool :=
+  Bool.eqb (v_frvec_lin vt) frvec_lin_of_table
+  && v_frvec_lin vt && v_vecsum_field vt         (* the running code must be the live (repaired) variant *)
+  && Bool.eqb (v_real_shortcut vt) real_shortcut_of_table.   (* open finding: measured = read from the tree *)
 Definition check_real (k : case Q) : bool := check qcl k && vt_consistent (c_vt k).
 Definition qMat := @LMat Q _.
 Definition qAff := @LAff Q _.
